@@ -557,18 +557,23 @@ HEADER = ("HEADER;\nFILE_DESCRIPTION((''),'2;1');\nFILE_NAME('','2000-01-01T00:0
           "FILE_SCHEMA(('{S}'));\nENDSEC;\n")
 
 
-def gen_header(rng, schema_name, n_extra=None):
+def gen_header(rng, schema_name, n_extra=None, repeat=False):
     """body of a HEADER section in the writer's spelling: the three mandatory entities with random contents plus
-    `n_extra` (default random 0..3) of SECTION_LANGUAGE / SECTION_CONTEXT / FILE_POPULATION"""
+    `n_extra` (default random 0..3) of SECTION_LANGUAGE / SECTION_CONTEXT / FILE_POPULATION; repeat=True: the extra
+    entities are drawn with repetition and in any order (several SECTION_LANGUAGE, ... - up to n_extra of them)"""
     w = lambda: rng.choice(["alpha", "bracket assembly", "gear box", "rev 7", "x", "o''brien"])
     lst = lambda: "(" + ",".join("'" + w() + "'" for _ in range(rng.randint(1, 2))) + ")"
     out = [f"FILE_DESCRIPTION({lst()},'2;1');",
            f"FILE_NAME('{w()}.stp','2000-01-01T00:00:00',{lst()},{lst()},'{w()}','{w()}','{w()}');",
            f"FILE_SCHEMA(('{schema_name.upper()}'));"]
-    extras = [f"SECTION_LANGUAGE($,'{rng.choice(['en', 'de', 'fr'])}');", f"SECTION_CONTEXT($,{lst()});",
-              f"FILE_POPULATION('{w()}','{w()}',$);"]
+    mk = [lambda: f"SECTION_LANGUAGE($,'{rng.choice(['en', 'de', 'fr'])}');", lambda: f"SECTION_CONTEXT($,{lst()});",
+          lambda: f"FILE_POPULATION('{w()}','{w()}',$);"]
     n = rng.randint(0, 3) if n_extra is None else n_extra
-    return "\n".join(out + extras[:n]) + "\n"
+    if repeat:
+        extras = [rng.choice(mk)() for _ in range(n)]
+    else:
+        extras = [f() for f in mk][:n]
+    return "\n".join(out + extras) + "\n"
 
 
 def header_of(text):
